@@ -76,6 +76,13 @@ Bips  ==   {UnifyG(s1, s2) : s1 \in Args2, s2 \in Args1}
       \cup {Bip("functor", <<V("$X"), Atom("noun*"), V("$N")>>), Bip("count", <<Lst(<<a, a>>), V("$N")>>),
             Bip("include", <<Cx("f", <<Anon>>), V("$L"), V("$O")>>), Bip("exclude", <<a, Lst(<<a, IntT(7)>>), V("$O")>>),
             Bip("print_list", <<V("$L")>>), NlG, CutG, FailG}
+      (* parentheses / brackets on BOTH sides of an infix operator: complex terms, lists of them, functions of functions *)
+      \cup {Bip(op, <<Cx("f", <<a>>), Cx("g", <<V("$Y")>>)>>) : op \in CmpOps}
+      \cup {Bip(op, <<Cx("h", <<>>), Cx("g", <<a, IntT(7)>>)>>) : op \in {"equal", "greater_than_or_equal"}}
+      \cup {UnifyG(Cx("f", <<V("$X")>>), Cx("g", <<V("$Y")>>)), UnifyG(Cx("pair", <<V("$X"), a>>), Lst(<<Cx("h", <<V("$X")>>), a>>)),
+            UnifyG(Lst(<<Cx("f", <<a>>)>>), Lst(<<Cx("g", <<V("$Y")>>), a>>)), Bip("less_than_or_equal", <<Lst(<<Cx("f", <<a>>)>>), Lst(<<Cx("g", <<a>>), a>>)>>),
+            UnifyG(V("$R"), Fn("multiply", <<Fn("add", <<IntT(1), IntT(2)>>), Fn("subtract", <<IntT(7), IntT(3)>>)>>)),
+            UnifyG(Fn("add", <<IntT(1), V("$X")>>), Fn("join", <<a, V("$Y")>>))}
 (* text outside ASCII: multi-byte characters left and right of every infix operator, in functors, variables *)
 Uni == {Atom("{U+6E0B}{U+8C37}"), V("${U+0426}{U+0435}{U+043D}{U+0430}"), Atom("{U+00E9}t{U+00E9}"), Cx("{U+0433}{U+043E}{U+0440}{U+043E}{U+0434}", <<Atom("{U+6E0B}{U+8C37}")>>)}
 UniGoals ==   {UnifyG(u, s) : u \in Uni, s \in {V("$X"), a}} \cup {UnifyG(s, u) : u \in Uni, s \in {V("$X"), a}}
@@ -103,6 +110,18 @@ DisjsT == {OrG(<<g1, g2>>) : g1 \in ConjsM, g2 \in ConjsM} \cup {OrG(<<g1, g2, g
 IdOps == {IntT(7), IntT(0), IntT(1), FltTx("1.0"), FltTx("0.0"), FltTx("2.5"), V("$X")}
 AltOnly == {UnifyG(V("$R"), Fn(op, <<s1, s2>>)) : op \in {"add", "subtract", "multiply", "divide"}, s1 \in IdOps, s2 \in IdOps}
            \cup {UnifyG(Fn(op, <<s1, s2>>), V("$R")) : op \in {"add", "multiply"}, s1 \in {IntT(7), FltTx("1.0"), V("$X")}, s2 \in {IntT(0), IntT(1), FltTx("0.0"), FltTx("1.0")}}
+(* goal trees that need grouping parentheses: all trees of conjunctions and disjunctions of two operands to depth 2  *)
+(* over three leaves, and depth-3 trees with one deep operand on either side (thorough: three-operand nodes too)     *)
+GLeaves == {Call(Cx("p", <<V("$X")>>)), CutG, Call(Cx("go", <<>>))}
+GOps(S1, S2) == {AndG(<<x, y>>) : x \in S1, y \in S2} \cup {OrG(<<x, y>>) : x \in S1, y \in S2}
+GT1 == GLeaves \cup GOps(GLeaves, GLeaves)
+GT2 == GOps(GT1, GT1)
+GD2 == GT2 \ GOps(GLeaves, GLeaves)                                    \* depth exactly 2
+GSmall == {Call(Cx("p", <<V("$X")>>)), CutG}
+GT3 == GOps(GD2, GSmall) \cup GOps(GSmall, GD2)
+GT3w == {AndG(<<x, y, z>>) : x \in GSmall, y \in GOps(GSmall, GSmall), z \in GT1} \cup {OrG(<<x, y, z>>) : x \in GT1, y \in GOps(GSmall, GSmall), z \in GSmall}
+NeedsGroup(g) == ~CanonGoal(g)
+GroupU == {g \in GT2 \cup (IF Thorough THEN GT3 \cup GT3w ELSE {g \in GT3 : g.gs[1] \in GSmall \/ g.gs[2] = CutG}) : NeedsGroup(g)}
 GoalU == Simple \cup Conjs \cup Disjs \cup (IF Thorough THEN ConjsT \cup DisjsT ELSE {})
 Heads == {Cx("h", <<V("$X")>>), Cx("h", <<V("$X"), Lst(<<V("$Y")>>)>>), Cx("h", <<a, IntT(7)>>), Cx("h", <<>>)}
 BodiesR == SimpleS \cup ConjsS \cup {OrG(<<g1, g2>>) : g1 \in ConjsS, g2 \in ConjsS} \cup {AndG(<<g1, g2, g3>>) : g1 \in SimpleS, g2 \in {CutG}, g3 \in SimpleS}
@@ -120,14 +139,19 @@ Sym == {Alphabet[i] : i \in DOMAIN Alphabet}
 Strings3 == {""} \cup Sym \cup {x \o y : x \in Sym, y \in Sym} \cup {x \o y \o z : x \in Sym, y \in Sym, z \in Sym}
 Prefixes == {x \o y \o z : x \in Sym, y \in Sym, z \in Sym}
 
+(* goal texts with parenthesised groups (single, doubled, tripled; around conjunctions and disjunctions): seeds *)
+(* of the text mutations only (what they must parse to is not claimed here)                                     *)
+GroupTexts == {"(a, b), c", "((a, b))", "((a; b))", "a, ((b; c))", "((a, b)), c", "(((a, b)))", "(a)", "((a))", "()", "a, (b; (c, d)), e",
+               "p :- q, ((r, s)).", "p :- (q; r), s.", "not((a, b))", "((a; b), c)", "(a; b); c", "p($X) :- ((q($X))), !."}
 (* ------------------------------ items ----------------------------------- *)
 Items ==
     CASE Slice = "terms"   -> {[kind |-> "term", ast |-> t] : t \in TermU} \cup {[kind |-> "raw", ast |-> Atom(r)] : r \in RawTexts}
       [] Slice = "goals"   -> {[kind |-> "goal", ast |-> g] : g \in GoalU} \cup {[kind |-> "rule", ast |-> c] : c \in RuleU}
                               \cup {[kind |-> "altgoal", ast |-> g] : g \in AltOnly}
+                              \cup {[kind |-> "groupgoal", ast |-> g] : g \in GroupU}
       [] Slice = "strings" -> {[kind |-> "string", ast |-> Atom(s)] : s \in Strings3}
                               \cup {[kind |-> "family", ast |-> Atom(s)] : s \in Prefixes}
-      [] Slice = "mutants" -> {[kind |-> "seedgoal", ast |-> g] : g \in Simple \cup ConjsS \cup {OrG(<<g1, g2>>) : g1 \in ConjsS, g2 \in ConjsS}}
+      [] Slice = "mutants" -> {[kind |-> "seedtext", ast |-> Atom(tx)] : tx \in GroupTexts} \cup {[kind |-> "seedgoal", ast |-> g] : g \in Simple \cup ConjsS \cup {OrG(<<g1, g2>>) : g1 \in ConjsS, g2 \in ConjsS}}
                               \cup {[kind |-> "seedrule", ast |-> c] : c \in {Clause(h, bd) : h \in Heads, bd \in ConjsS} \cup {Fact(h) : h \in Heads}}
                               \cup {[kind |-> "seedterm", ast |-> t] : t \in Depth1 \cup D1S}
 
@@ -139,9 +163,11 @@ PrintIt ==
                 !.text = CASE it.kind \in {"term", "seedterm"} -> PrintTerm(it.ast)
                            [] it.kind \in {"goal", "seedgoal"} -> PrintGoal(it.ast)
                            [] it.kind = "altgoal" -> AltGoal(it.ast)
+                           [] it.kind = "groupgoal" -> GroupGoal(it.ast, FALSE)
                            [] it.kind \in {"rule", "seedrule"} -> PrintRule(it.ast)
                            [] OTHER -> it.ast.s,
-                !.alt = IF it.kind = "goal" /\ HasAlt(it.ast) THEN AltGoal(it.ast)
+                !.alt = IF it.kind = "groupgoal" THEN GroupGoal(it.ast, TRUE)
+                        ELSE IF it.kind = "goal" /\ HasAlt(it.ast) THEN AltGoal(it.ast)
                         ELSE IF it.kind = "term" /\ IsArith2(it.ast) THEN AltTerm(it.ast)
                         ELSE IF it.kind = "rule" /\ it.ast.head.a = <<>>
                         THEN (IF it.ast.body = NoGoal THEN it.ast.head.s \o "."
@@ -173,6 +199,7 @@ Case ==
       [] it.kind = "raw"  -> [t |-> "syn-raw", text |-> it.text, contexts |-> Contexts(it.text), path |-> <<"raw">>]
       [] it.kind = "goal" -> [t |-> "syn-goal", text |-> it.text, alt |-> it.alt, ast |-> PackG(it.ast), path |-> <<"goal">>]
       [] it.kind = "altgoal" -> [t |-> "syn-altgoal", text |-> it.text, ast |-> PackG(it.ast), path |-> <<"altgoal">>]
+      [] it.kind = "groupgoal" -> [t |-> "syn-groupgoal", text |-> it.text, alt |-> it.alt, ast |-> PackG(it.ast), path |-> <<"groupgoal">>]
       [] it.kind = "rule" -> [t |-> "syn-rule", text |-> it.text, alt |-> it.alt,
                               ast |-> [head |-> Pack(it.ast.head), body |-> PackG(it.ast.body)], path |-> <<"rule">>]
       [] it.kind = "string" -> [t |-> "syn-string", text |-> it.text, path |-> <<"string">>]
